@@ -62,10 +62,10 @@ Qed.
 
 (* ---------- variables and observers ---------- *)
 Lemma set_variable_rejected_noop (name : text) (v : value) (w : world) :
-  assoc_mem name (vs_defaults (ss_vars (w_state w))) = false ->
-  exists msg, set_variable I name v w = (OErr BadArgument msg, w).
+  w_async w = false -> assoc_mem name (vs_defaults (ss_vars (w_state w))) = false ->
+  exists msg, set_variable I sw name v w = (OErr BadArgument msg, w).
 Proof.
-  intros H. unfold set_variable, vs_host_set, m_defs. munfold. cbn. rewrite H. cbn.
+  intros Ha H. unfold set_variable, vs_host_set, m_defs. munfold. cbn. rewrite Ha. cbn. rewrite H. cbn.
   eexists. reflexivity.
 Qed.
 
@@ -175,8 +175,12 @@ Qed.
 
 (* ---------- flows ---------- *)
 Lemma remove_default_flow_rejected_noop (w : world) :
-  exists msg, remove_flow sw DEFAULT_FLOW w = (OErr BadArgument msg, w).
-Proof. unfold remove_flow. rewrite text_eqb_refl. unfold fail. eexists. reflexivity. Qed.
+  exists k msg, remove_flow sw DEFAULT_FLOW w = (OErr k msg, w).
+Proof.
+  unfold remove_flow. munfold. cbn. destruct (w_async w); cbn.
+  - eexists; eexists; reflexivity.
+  - rewrite ?text_eqb_refl. eexists; eexists; reflexivity.
+Qed.
 
 Lemma assoc_remove_absent {V} (k : text) (l : list (text * V)) :
   assoc_mem k l = false -> assoc_remove k l = l.
@@ -187,15 +191,16 @@ Qed.
 
 (* removing a flow that does not exist: no panic, nothing changes *)
 Lemma remove_absent_flow_noop (name : text) (w : world) :
-  text_eqb name DEFAULT_FLOW = false ->
+  w_async w = false -> text_eqb name DEFAULT_FLOW = false ->
   text_eqb (fl_name (ss_flow (w_state w))) name = false ->
   (forall nf, ss_named (w_state w) = Some nf -> assoc_mem name nf = false) ->
   remove_flow sw name w = (OOk tt, w).
 Proof.
-  intros Hd Hc Hn. unfold remove_flow. rewrite Hd.
+  intros Ha Hd Hc Hn. unfold remove_flow.
   destruct w as [st s rcc asy snap obs val fb unsafe exts hdl evs lines fuel pauses pl].
-  destruct s as [fl se vars ev errs warns pa named div vis turns turn seed prnd]. cbn in Hc, Hn.
-  munfold. unfold set. cbn. rewrite Hc. cbn.
+  destruct s as [fl se vars ev errs warns pa named div vis turns turn seed prnd]. cbn in Ha, Hc, Hn.
+  unfold DEFAULT_FLOW in Hd; cbn in Hd.
+  munfold. unfold set. cbn. rewrite Ha. cbn. rewrite Hd. cbn. rewrite Hc. cbn.
   destruct named as [nf|]; unfold set; cbn.
   - rewrite (assoc_remove_absent name nf (Hn nf eq_refl)). reflexivity.
   - rewrite ?now_remove_flow_checked. reflexivity.
